@@ -71,6 +71,12 @@ func GenConfig(seed uint64, opt core.Options) *Config {
 	if opt.Tier == "thorough" {
 		c.Slots = rng.Range(int(c.SPE)*4, int(c.SPE)*20)
 	}
+	// a large registry now and then: list shuffling and committee slicing beyond 256 positions
+	largeRegistry := rng.Chance(1, 9)
+	if largeRegistry {
+		c.Validators = []int{257, 300, 333, 400, 520}[rng.Intn(5)]
+		c.Slots = rng.Range(int(c.SPE)*2, int(c.SPE)*4)
+	}
 	c.Nodes = rng.Range(1, 3)
 	c.Participation = []int{100, 100, 90, 70, 50, 30}[rng.Intn(6)]
 	c.SkipPct = []int{0, 5, 15, 30}[rng.Intn(4)]
@@ -353,7 +359,7 @@ func NewWorld(cfg *Config, res *core.Result) (*World, error) {
 		syncMsgs: map[common.Root][]int{}, syncSigs: map[common.Root]map[int]common.BLSSignature{},
 		attDom: map[*phase0.Attestation][32]byte{}, attIn: map[*phase0.Attestation][]common.Root{}, syncDom: map[common.Root][32]byte{}, exited: map[int]bool{}, slashedV: map[int]bool{}, changedV: map[int]bool{}, deposits: &depositTree{}}
 	w.rng = core.NewRng(cfg.Seed ^ 0x5eed)
-	w.keys = newKeyring(cfg.Validators + 24)
+	w.keys = newKeyring(cfg.Validators + 24) // (genesis validators first, then the depositors' keys)
 	w.spec.ExecutionEngine = &scriptedEngine{}
 	vals := make([]phase0.KickstartValidatorData, cfg.Validators)
 	keys := make([][32]byte, cfg.Validators)
